@@ -53,14 +53,16 @@ ShapeCases ==
 AxisUnits == {<<1, 0, 0>>, <<0, 1, 0>>, <<0, 0, 1>>, <<0, -1, 0>>}
 LineProbe == [Base EXCEPT !.gen = "line"]
 UpsFor ==
-    IF Len(path) < 2 \/ HasRepeat(LineProbe) \/ HasReversal(LineProbe) THEN {<<0, 1, 0>>}
+    IF Len(path) < 2 THEN {<<0, 1, 0>>}
+    ELSE IF HasRepeat(LineProbe) \/ HasReversal(LineProbe)
+    THEN {u \in AxisUnits : \A k \in 1..(Len(path) - 1) : Seg(LineProbe, k) = Zero3 \/ Cross(u, Seg(LineProbe, k)) # Zero3}
     ELSE {u \in AxisUnits : \A k \in 0..(Len(path) - 1) : Cross(u, RingDir(LineProbe, k)) # Zero3}
 LineCases ==
     {[Base EXCEPT !.gen = "line", !.up = u, !.rad = w, !.h = hh] : u \in UpsFor, w \in LineWidths, hh \in {0, 1}}
 \* the spline generator samples the path as an arc-length parametrised polyline; n-1 a
 \* multiple of the length puts samples on the corners, other n cut the corners
 SplineCases ==
-    IF Len(path) < 2 \/ HasRepeat(Base) THEN {[Base EXCEPT !.gen = "spline", !.n = 3]}
+    IF Len(path) < 2 \/ HasRepeat(Base) THEN {}       \* no curve to speak of (the spline is the harness' polyline)
     ELSE {[Base EXCEPT !.gen = "spline", !.n = nn, !.radii = Radii(p, nn), !.close = cl, !.sides = 4] :
             nn \in SplineNs \cup {PathLen(Base) + 1, 2 * PathLen(Base) + 1}, p \in ProfileSet \ {2}, cl \in BOOLEAN}
 
